@@ -460,16 +460,17 @@ func ComposeCrud(u *Universe, rng *rand.Rand, firstID int) []*Model {
 		t0 := Table{Goname: names[rng.Intn(len(names))] + "0"}
 		t0.Fields = append(t0.Fields, take(2+rng.Intn(3))...)
 		t0.Fields = append(t0.Fields, plain([]string{"Id", "ID"}[rng.Intn(2)], basic("int64")), plain("Num", basic("int")), plain("Tag", basic("string")))
-		if rng.Intn(2) == 0 {
+		first := len(models) == 0 // the first model file carries every kind of directive (the others draw them)
+		if rng.Intn(2) == 0 || first {
 			t0.Comments = append(t0.Comments, "gomacro:SQL ADD UNIQUE(Num, Tag)")
 		}
-		switch rng.Intn(3) {
-		case 0:
+		switch k := rng.Intn(3); {
+		case k == 0 || first:
 			t0.Comments = append(t0.Comments, "gomacro:SQL _SELECT KEY(Num)")
-		case 1:
+		case k == 1:
 			t0.Comments = append(t0.Comments, "gomacro:SQL _SELECT KEY(Tag, Num)")
 		}
-		if rng.Intn(2) == 0 {
+		if rng.Intn(2) == 0 || first {
 			t0.Comments = append(t0.Comments, "gomacro:QUERY SetNum UPDATE "+t0.Goname+" SET Num = $v$ WHERE Tag = $w$")
 		}
 		t1 := Table{Goname: names[rng.Intn(len(names))] + "1"}
@@ -490,7 +491,7 @@ func ComposeCrud(u *Universe, rng *rand.Rand, firstID int) []*Model {
 		t1.Fields = append(t1.Fields,
 			Field{Name: "Ref", Exported: true, TE: refTE, Guard: noGuard, Foreign: t0.Goname, OnDelete: refOD},
 			Field{Name: "Owner", Exported: true, TE: ref("IdOther"), Guard: noGuard, OnDelete: ods[rng.Intn(2)]})
-		if rng.Intn(2) == 0 {
+		if rng.Intn(2) == 0 || witness { // (the first model file: a required key that is UNIQUE too)
 			t1.Comments = append(t1.Comments, "gomacro:SQL ADD UNIQUE(Owner)")
 		}
 		link := Table{Goname: "Link", Fields: []Field{
